@@ -547,3 +547,70 @@ Example C01_two_out_instance : forall full,
 Proof.
   intros full. exact (C01_from_start_x2_partial (cfgo true) full eq_refl eq_refl eq_refl two_out_ops1 w0 w0_wf eq_refl C01_two_out_ops_x12).
 Qed.
+
+(* ================================================================== bursts of file-level operations *)
+(* Several FILE-LEVEL operations (touch, write, chmod of a file, unlink, file renames inside / in / out / replacing a file - the
+   class [burst_ok] of C03_burst_files_contract, Proofs/BurstProofs.v) applied back to back from a synchronised state, then
+   everything read: replaying the delivered stream on the tree before the burst gives the tree after the burst.  Side
+   condition as in C03: the kernel coalesced no record across an operation border (only `chmod f; chmod f` does).  Each
+   chunk of the stream equals its operation's contract up to collapse (C03) and replay is invariant under collapse
+   (C01_contract_replay).  Stated only: bursts that create, remove or rename a directory. *)
+Require Import WD.Proofs.TieProofs WD.Proofs.ReplaceProofs WD.Proofs.CutsPipeProofs WD.Proofs.SoundLooseProofs WD.Proofs.BurstProofs WD.Proofs.BurstReplayProofs.
+
+Theorem C01_burst_files_replay : forall C full w k r ops t,
+  c_faults C = [] -> c_fix_moveout C = true -> c_mask C = WATCHDOG_ALL ->
+  RSync C w k r -> burst_ok C w ops ->
+  let KB := fst (burst_end k w ops) in let wn := snd (burst_end k w ops) in
+  k_queue KB = concat (seq_qs k w ops) ->
+  TInv (c_recursive C) (c_root C) t w ->
+  exists r' raws, read_batch C (w_fs wn) (r, drainq KB, []) (k_queue KB) = Done (r', drainq KB, raws) /\
+    TInv (c_recursive C) (c_root C) (replay (c_recursive C) (c_root C) t (delivered C full wn raws)) wn.
+Proof. exact burst_files_replay. Qed.
+Print Assumptions C01_burst_files_replay.
+
+(* from Inotify.__init__ on a well-formed world *)
+Theorem C01_burst_files_replay_from_start : forall C full w ops,
+  c_faults C = [] -> c_fix_moveout C = true -> c_mask C = WATCHDOG_ALL ->
+  wf_fs w -> fisdir (c_root C) (w_fs w) = true -> burst_ok C w ops ->
+  exists r0 k0, construct C kinit (w_fs w) = Some (r0, k0) /\
+    let KB := fst (burst_end k0 w ops) in let wn := snd (burst_end k0 w ops) in
+    (k_queue KB = concat (seq_qs k0 w ops) ->
+     exists r' raws, read_batch C (w_fs wn) (r0, drainq KB, []) (k_queue KB) = Done (r', drainq KB, raws) /\
+       forall x, alookup beqb x (replay (c_recursive C) (c_root C) (tree_of (c_recursive C) (c_root C) w) (delivered C full wn raws))
+               = alookup beqb x (tree_of (c_recursive C) (c_root C) wn)).
+Proof. exact burst_files_replay_from_start. Qed.
+Print Assumptions C01_burst_files_replay_from_start.
+
+(* on the Pipeline model: the operations back to back, the reads cut arbitrarily, any ticks / queue_events calls, the delay,
+   queue_events until the buffer is empty ([burst_hist]); the invariant of the accumulated stream is kept and the state is
+   synchronised and idle again, so bursts and single blocks can alternate *)
+Theorem C01_burst_files_replay_pipeline : forall P s ops cuts L t0, pc_filter P = None -> let C := pc_reader P in
+  c_faults C = [] -> c_fix_moveout C = true -> c_mask C = WATCHDOG_ALL ->
+  RSync C (p_world s) (p_k s) (p_r s) -> buffer_idle (p_buf s) -> p_stopped s = false ->
+  (forall id, In id (map fst (p_tbl s)) -> (id < p_next s)%N) ->
+  burst_ok C (p_world s) ops ->
+  let KB := fst (burst_end (p_k s) (p_world s) ops) in
+  k_queue KB = concat (seq_qs (p_k s) (p_world s) ops) ->
+  CutsPipeProofs.sum cuts = length (k_queue KB) -> Forall tick_or_emit L ->
+  TInv (c_recursive C) (c_root C) (replay (c_recursive C) (c_root C) t0 (p_out s)) (p_world s) ->
+  exists nit s' obs, prun P s (burst_hist P ops cuts L nit) [] = Done (s', obs) /\
+    TInv (c_recursive C) (c_root C) (replay (c_recursive C) (c_root C) t0 (p_out s')) (p_world s') /\
+    RSync C (p_world s') (p_k s') (p_r s') /\ buffer_idle (p_buf s') /\ p_stopped s' = false /\
+    (forall id, In id (map fst (p_tbl s')) -> (id < p_next s')%N).
+Proof. exact burst_files_replay_pipeline. Qed.
+Print Assumptions C01_burst_files_replay_pipeline.
+
+(* instance: world /s/R (watched), /s/O, /s/R/d, /s/R/d/f, /s/R/e; burst touch R/d/a; mv R/d/f R/e/f; mv R/d/a O/a; chmod R/e/f;
+   write R/e/f; unlink R/e/f - 11 records, none coalesced; the replayed stream is the tree after the burst (f is gone, a is
+   outside), the state is synchronised and covered *)
+Example C01_burst_files_nonvacuous :
+  exists r0 k0, construct (cfgx true true) kinit (w_fs rp_world) = Some (r0, k0) /\
+    let KB := fst (burst_end k0 rp_world burst_ops) in let wn := snd (burst_end k0 rp_world burst_ops) in
+    k_queue KB = concat (seq_qs k0 rp_world burst_ops) /\
+    exists r' raws, read_batch (cfgx true true) (w_fs wn) (r0, drainq KB, []) (k_queue KB) = Done (r', drainq KB, raws) /\
+      length raws = 11%nat /\
+      (forall x, alookup beqb x (replay true pR (tree_of true pR rp_world) (delivered (cfgx true true) false wn raws))
+               = alookup beqb x (tree_of true pR wn)) /\
+      RSync (cfgx true true) wn (drainq KB) r' /\ Cover (cfgx true true) (w_fs wn) (drainq KB) r' /\
+      flookup bf_ef (w_fs wn) = None /\ fexists bf_oa (w_fs wn) = true.
+Proof. exact burst_replay_example. Qed.
